@@ -485,5 +485,16 @@ def check_process_reports(chk, reports, allow_kinds=()):
         chk.violation(dict(clause='sanitizer', kind=r['kind'], frames=r['frames'][:3]), dict(report=r['report'][-3000:]))
 
 
+def resource_crash(res):
+    """True when the process was killed by a resource limit of the arithmetic layer (GMP refusing an astronomically large integer,
+    the allocator refusing the request, or recursion once per unit of a huge order): the monitors of value properties count these
+    ("resource-limit") instead of judging them - the inputs are outside what the property quantifies over (DESIGN.md 8.0)."""
+    c = res.crash if isinstance(res.crash, dict) else {}
+    rep = str(c.get('report', ''))
+    if 'gmp: overflow in mpz type' in rep or 'GNU MP: Cannot allocate memory' in rep or 'failed to allocate' in rep:
+        return True
+    return False
+
+
 def crash_key(res):
     return dict(clause='crash', kind=res.crash['kind'], frames=res.crash['frames'][:3])
